@@ -306,6 +306,29 @@ pub fn build_answer(spec: &AnsSpec, q: &(Name, u16, u16), serial: u32, id: u16) 
             Name(vec![format!("h{}", r.below(1000)).into_bytes(), b"example".to_vec(), b"net".to_vec()])
         }
     };
+    /* label spelling: a fifth of the replies spell the labels of their names in mixed case,
+     * a tenth use octets that are not letters, digits or hyphens; the relayed names must
+     * come back octet for octet (RFC 4343: case is preserved) */
+    let spelling = Rng::new(spec.seed, "label-spelling").below(10);
+    let name_pool = |r: &mut Rng| -> Name {
+        let Name(labels) = name_pool(r);
+        Name(
+            labels
+                .into_iter()
+                .map(|l| match spelling {
+                    0 | 1 => l.iter().map(|b| if r.chance(0.5) { b.to_ascii_uppercase() } else { b.to_ascii_lowercase() }).collect(),
+                    2 => {
+                        let mut l = l;
+                        if r.chance(0.5) {
+                            l.push(*r.pick(&[0u8, b'.', b' ', b'@', b'[', b'{', b'\\', 0x7f, 0x80, 0xff, b'_', b'*']));
+                        }
+                        l
+                    }
+                    _ => l,
+                })
+                .collect(),
+        )
+    };
     let with_serial = |n: Name| -> Name {
         let mut l = vec![ser_label.clone()];
         l.extend(n.0);
